@@ -100,7 +100,7 @@ def gen_program(rng, big=False):
         m.pcs[m.seg] = a
         L.append("\torg %d" % a)
 
-    switch_cpu(rng.choice(["68000", "320c30", "17c42", "320c25"]) if big else rng.choice(cpus))
+    switch_cpu(rng.choice(["68000", "320c30", "17c42", "320c25"]) if big else rng.choice(cpus + ["8051", "8051"]))
     org(rng.choice([0, 0, 16, 256, 4096]) if limit() >= 8192 else rng.choice([0, 16]))
     n = rng.randint(1, 60)
     for _ in range(n):
@@ -200,7 +200,21 @@ def gen_program(rng, big=False):
             a = rng.choice([m.pc(), max(0, m.pc() - rng.randint(1, 20)), min(lim, m.pc() + rng.randint(1, 5000)), rng.below(min(lim, 60000) + 1)])
             org(a)
         elif k == 8 and len(t["segs"]) > 1:
-            m.seg = rng.choice(t["segs"])
+            new_seg = rng.choice(t["segs"])
+            if new_seg in m.pcs and new_seg != m.seg and rng.chance(0.6):
+                # switch onto a segment whose counter is known, without ORG; half of the time make the two counters
+                # coincide first (a switch that does not change the numeric PC), then emit data at once
+                if rng.chance(0.5) and m.pcs[new_seg] <= limit() - 4:
+                    org(m.pcs[new_seg])
+                m.seg = new_seg
+                L.append("\tsegment %s" % m.seg)
+                if limit() - m.pc() >= 2:
+                    vals = [rng.below(256), rng.below(256)]
+                    L.append("\t%s %d,%d" % (t["byte"], vals[0], vals[1]))
+                    m.emit(vals)
+                    total += 2
+                continue
+            m.seg = new_seg
             L.append("\tsegment %s" % m.seg)
             # the initial counter of a segment is target specific (e.g. 8051 DATA starts at $30): always set it
             org(rng.below(SEGLIMIT_8051[m.seg] - 8))
@@ -352,7 +366,7 @@ def rebuild_model(lines):
             continue
         if op == "segment":
             m.seg = arg
-            need_org = True
+            need_org = arg not in m.pcs  # a segment used before keeps its counter
             continue
         if op == "org":
             m.pcs[m.seg] = int(arg)
